@@ -345,6 +345,17 @@ pub fn resolve_sem_with(
     } else {
         vec![]
     };
+    // quantifier nesting as deep as the explicit evaluator can afford: states^depth <= 4096
+    let mut cfg = cfg;
+    if cfg.max_quant_depth == 3 {
+        cfg.max_quant_depth = match props.len() {
+            0 | 1 => 8,
+            2 => 6,
+            3 => 4,
+            4 => 3,
+            _ => 2,
+        };
+    }
     let env = FEnv {
         props: &props,
         labels: &labels,
